@@ -84,6 +84,21 @@ CHECKS: dict[str, tuple[str, str, str, str, str]] = {
         "TLC model checking of the distributive rule (PtDistLaw) + PtSem evaluated by TLC on "
         "real rewritten graphs over all policies (artefact validation)",
         "DESIGN.md section 4 C06"),
+    "C12": (
+        "model_checking",
+        "Seeded random caller programs with 1..3 call sites (bodies: random programs over 1..4 "
+        "parameters returning array / tuple / dict; positional, keyword and mixed arguments; a "
+        "definition called repeatedly with different arguments; nesting depth <= 3; caller "
+        "placeholders named like parameters) are replayed through the real code as (a) direct "
+        "application, (b) trace_call, (c) inline_calls(tag_all_calls_to_be_inlined(b)); TLC "
+        "decides on the exported graphs that (b) and (c) have the shapes, dtypes and values of "
+        "(a) for every valuation (PtSem's call semantics: body evaluated under the parameter "
+        "binding in its own name space) and the harness that (c) is call-free.",
+        "Trusted: TLC, exporter. Values exact in GF(10007) with uninterpreted functions, 2 "
+        "injective valuations. Programs are sampled, bodies have static shapes.",
+        "TLA+ denotational spec with function-call semantics (PtSem) evaluated by TLC on "
+        "directly applied / traced / inlined graphs exported from the real code",
+        "DESIGN.md section 4 C12"),
     "C19": (
         "model_checking",
         "Every index lambda the public API creates for the raisable operations (both operand "
